@@ -69,7 +69,8 @@ type authHoney struct {
 	inflight   atomic.Int64   // requests being served right now
 	// authScript, when set, decides how /1/auth treats a key: "" = normal answer,
 	// "401", "500", "garbage" (200 with an undecodable body), "hangup" (connection
-	// closed without an answer), "slow" (normal answer after 4 s).
+	// closed without an answer), "slow" (normal answer after 4 s), or one of
+	// "429","403","404","400","409","503","502" (that status with a JSON error body).
 	authScript func(key string) string
 }
 
@@ -107,7 +108,14 @@ func (h *authHoney) handleAuth(w http.ResponseWriter, r *http.Request) {
 	id := h.keyIDs[key]
 	h.mu.Unlock()
 	if h.authScript != nil {
-		switch h.authScript(key) {
+		switch mode := h.authScript(key); mode {
+		case "429", "403", "404", "400", "409", "503", "502":
+			// e.g. Honeycomb throttling the auth endpoint: an error status with a JSON body
+			code, _ := strconv.Atoi(mode)
+			w.Header().Set("Content-Type", "application/json")
+			w.WriteHeader(code)
+			w.Write([]byte(`{"error":"scripted failure of the auth endpoint"}`))
+			return
 		case "401":
 			w.WriteHeader(http.StatusUnauthorized)
 			return
